@@ -49,6 +49,12 @@ Section C08.
     exists r, x = OReg r /\ newreg mr mr' r /\ frame mr mr' /\ store mr' = store mr /\
       let v := top (store mr) rf in 0 < v /\ denotes mr' r (fun e => F (upd e v hi)).
   Proof. exact (lowhigh_step_spec nhash khash bmask cmask0 smask0 capacity cap_ok mr hi f rf F fuel mr' x). Qed.
+  (* top_cofactors(f, v) for v not below f's top variable: the two cofactors with respect to v *)
+  Theorem C08_top_cofactors mr (hi : bool) f rf F v fuel mr' x :
+    reachable mr -> liveh mr f rf -> denotes mr rf F -> 0 < v -> (idx rf = 1 \/ v <= top (store mr) rf) ->
+    mstep fuel mr (HTopCof hi f v) = Some (mr', x) ->
+    exists r, x = OReg r /\ newreg mr mr' r /\ frame mr mr' /\ store mr' = store mr /\ denotes mr' r (fun e => F (upd e v hi)).
+  Proof. exact (topcof_step_spec nhash khash bmask cmask0 smask0 capacity cap_ok mr hi f rf F v fuel mr' x). Qed.
 End C08.
 
 Print Assumptions C08_substitute.
@@ -58,3 +64,4 @@ Print Assumptions C08_entry_points_agree.
 Print Assumptions C08_result_independent.
 Print Assumptions C08_unchanged_when_independent.
 Print Assumptions C08_accessors.
+Print Assumptions C08_top_cofactors.
